@@ -518,6 +518,7 @@ type SpecFunc struct {
 	Body    Expr // nil => uninterpreted
 	BodySrc string
 	Rec     bool
+	Fuel    int
 	Axioms  []*Clause
 	Pkg     string
 }
